@@ -169,7 +169,7 @@ struct World {
     dir: PathBuf,
     log: Option<MultiRecordLog>,
     /// name (raw bytes as utf8 string) -> seed entry, applied before events
-    seeds: Vec<(String, Seed)>,
+    seeds: Vec<(std::ffi::OsString, Seed)>,
     /// every mutation of the directory since the case began (also out-of-band damage),
     /// enough to rebuild any crash image from the seeds
     events: Vec<Event>,
@@ -225,7 +225,7 @@ impl World {
         }
     }
 
-    fn apply_seed(dir: &Path, name: &str, seed: &Seed) {
+    fn apply_seed(dir: &Path, name: &std::ffi::OsStr, seed: &Seed) {
         let path = dir.join(name);
         match seed {
             Seed::File(content) => std::fs::write(path, content).unwrap(),
@@ -467,7 +467,8 @@ impl World {
         outln!("# {idx} {}", toks[0]);
         match toks[0] {
             "seedfile" => {
-                let name = String::from_utf8(unhex(toks[1])).expect("utf8 seed names only");
+                // any byte string (non-UTF-8 names included: the crate must skip them)
+                let name: std::ffi::OsString = std::os::unix::ffi::OsStringExt::from_vec(unhex(toks[1]));
                 let seed = match toks[2] {
                     "f" => Seed::File(unhex(toks[3])),
                     "z" => Seed::File(vec![0u8; toks[3].parse().unwrap()]),
